@@ -56,6 +56,15 @@ PROPS = {
         stub=["libp2p host/network (records Connect calls and their context state, answers per plan, emits notifications as scheduling points)", "conn manager (null)"],
         assumptions=COMMON_ASSUMPTIONS + ["one Connect call with an already cancelled context per peer and stop/remove event is tolerated (the reconnect whose timer had fired before the stop); any further one means a timer was re-armed after the stop"],
     ),
+    "C45": dict(
+        harness="c45", pkg="autoconf", test="TestVerifC45", yield_pkgs=[], level="fault_enumeration",
+        quick=dict(runs=16 * 12, budget=120), thorough=dict(runs=16 * 150, budget=1500),
+        rule="one case = 0-3 earlier complete cache updates followed by one more (config sizes 0-300 quick / 0-1500 thorough padding bytes, gaps 300 ms / 1 s / 2 h so that two updates can fall into the same second, cache size 1-3, ETag / Last-Modified on or off); the file-system operation log of the last update is cut after EVERY operation and at EVERY byte of every write (exhaustive per case), each crash state is materialised and read by a new client; distinct = distinct event-log fingerprint; non-trivial = at least one crash state materialised; faults_fired.crash-cut = crash states read",
+        real=["autoconf.Client GetLatest / fetchFromRemote / saveToCache / cleanupOldVersions / GetCached", "package os on a real temporary directory"],
+        stub=["HTTP round tripper (serves valid configs, no socket)", "clock (fake)", "file-system seam os.VerifFSHook (logs open/write/rename/remove/sync/close with data; overlay-only patch of package os)"],
+        assumptions=COMMON_ASSUMPTIONS + ["crash model: the process stops between two file-system operations or after any byte of a write; completed operations are durable in order (no power-loss reordering)", "exhaustive over the cut points of each generated update, sampled over update histories"],
+        exhaustive=True,
+    ),
     "C02": dict(
         harness="c02", pkg="blockstore", test="TestVerifC02", yield_pkgs=["blockstore"], level="exploration",
         quick=dict(runs=16 * 2500, budget=90), thorough=dict(runs=16 * 60000, budget=1500),
